@@ -51,6 +51,16 @@ def parseObs (s : String) : Option (Res × List (Nat × Cnt)) :=
       | [] => none
     pure (res, deltas)
 
+/-- the harness ends every script with a settle observation `settle[!];<deltas>` (`!` = its wait timed out):
+(observations of the ops, the settle observation as an ordinary token with result `-`) -/
+def splitSettle (obsToks : List String) : List String × Option String :=
+  match obsToks.getLast? with
+  | some t =>
+    if t.startsWith "settle!" then (obsToks.dropLast, some ("-" ++ dropS t 7))
+    else if t.startsWith "settle" then (obsToks.dropLast, some ("-" ++ dropS t 6))
+    else (obsToks, none)
+  | none => (obsToks, none)
+
 def addCnt (x y : Cnt) : Cnt := { a := x.a + y.a, e := x.e + y.e, f := x.f + y.f, s := x.s + y.s, n := x.n + y.n }
 
 def applyDeltas (snap : Nat → Cnt) (ds : List (Nat × Cnt)) : Nat → Cnt :=
@@ -182,21 +192,26 @@ def tpSynth (prev : Nat → Cnt) :
 def dropLandsT {α : Type} : List Lag.T.TOp → List α → List α
   | .land _ _ :: ops, _ :: xs => dropLandsT ops xs
   | .api _ :: ops, x :: xs => x :: dropLandsT ops xs
+  | .settle :: ops, x :: xs => x :: dropLandsT ops xs
   | _, _ => []
 
-def tpLine (kindsS : String) (opToks obsToks : List String) : Option Verdict := do
+def tpLine (kindsS : String) (opToks obsToksAll : List String) : Option Verdict := do
   let kinds ← parseKinds parsePKind kindsS
+  let (obsToks, settleTok) := splitSettle obsToksAll
   let raw ← obsToks.mapM parseObs
+  let settle ← match settleTok with | some t => (parseObs t).map some | none => some none
   let n := kinds.length
   let steps ← tpSteps n { st := TP.init kinds } (zipOpt opToks raw)
-  let tops := tpLagOps steps
+  let tops := tpLagOps steps ++ (if settle.isSome then [Lag.T.TOp.settle] else [])
   let ops := steps.map (·.2)
-  let obs := tpObs (fun _ => {}) raw
+  let rawAll := raw ++ settle.toList
+  let obs := tpObs (fun _ => {}) rawAll
   let model := dropLandsT tops (Lag.T.trun kinds tops)
   let agree := model.length == obs.length &&
     (model.zip obs).all fun (m, o) => m.res == o.res && snapEq n m.snap o.snap
-  let fails := Lag.T.tcheck kinds tops (tpSynth (fun _ => {}) steps raw)
-  let br := dedup (tpBranches (TP.init kinds) ops ++ (if steps.any (·.1.isSome) then ["late-arrival"] else []))
+  let fails := Lag.T.tcheck kinds tops (tpSynth (fun _ => {}) steps rawAll)
+  let br := dedup (tpBranches (TP.init kinds) ops ++ (if steps.any (·.1.isSome) then ["late-arrival"] else []) ++
+    (match settle with | some (_, ds) => if ds.isEmpty then ["settle-quiet"] else ["settle-arrival"] | none => []))
   pure { agree := agree, spec := if fails.any then "FAIL:" ++ failTags fails else "ok",
          nontrivial := raw.any (fun (_, ds) => !ds.isEmpty),
          branches := if br.isEmpty then "-" else ",".intercalate br,
@@ -232,8 +247,10 @@ def gBranches (g : Gate.GSt) : List Gate.GOp → List String
       | .op o => if g.fly.isSome then "overlap-" ++ tpBranch g.st o else tpBranch g.st o
     tag :: gBranches x.1 r
 
-def gtpLine (kindsS : String) (opToks obsToks : List String) : Option Verdict := do
+def gtpLine (kindsS : String) (opToks obsToksAll : List String) : Option Verdict := do
   let kinds ← parseKinds parsePKind kindsS
+  let (obsToks, settleTok) := splitSettle obsToksAll
+  let settleQuiet := match settleTok with | some t => t == "-" | none => true
   let raw ← obsToks.mapM parseGObs
   let ops ← (zipOpt opToks raw).mapM fun (t, o) => parseGOp t (o.map fun (r, _, ds) => (r, ds))
   let n := kinds.length
@@ -241,7 +258,8 @@ def gtpLine (kindsS : String) (opToks obsToks : List String) : Option Verdict :=
   let model := Gate.grun kinds ops
   let agree := model.length == obs.length &&
     (model.zip obs).all fun (m, o) => m.res == o.res && m.parked == o.parked && snapEq n m.snap o.snap
-  let fails := Gate.gcheck kinds ops obs
+  -- pools of recording processors have nothing outstanding: nothing may move at the settle
+  let fails := (Gate.gcheck kinds ops obs).or { m := !settleQuiet }
   let spec := if !fails.any then "ok" else "FAIL:" ++ failTags fails
   let br := dedup (gBranches { st := TP.init kinds } ops)
   pure { agree := agree, spec := spec, nontrivial := raw.any (fun (_, p, _) => p),
@@ -320,21 +338,27 @@ def lpSynth (prev : Nat → Cnt) :
 def dropLands {α : Type} : List Lag.L.LOp → List α → List α
   | .land _ :: ops, _ :: xs => dropLands ops xs
   | .api _ :: ops, x :: xs => x :: dropLands ops xs
+  | .settle _ :: ops, x :: xs => x :: dropLands ops xs
   | _, _ => []
 
-def lpLine (kindsS : String) (opToks obsToks : List String) : Option Verdict := do
+def lpLine (kindsS : String) (opToks obsToksAll : List String) : Option Verdict := do
   let kinds ← parseKinds parseLKind kindsS
+  let (obsToks, settleTok) := splitSettle obsToksAll
   let raw ← obsToks.mapM parseObs
+  let settle ← match settleTok with | some t => (parseObs t).map some | none => some none
   let steps ← parseLPSteps kinds false (zipOpt opToks raw)
-  let lops := lpLagOps steps
+  let settleOp := settle.toList.map fun (_, ds) => Lag.L.LOp.settle (fun i => (deltaOf ds i).n)
+  let lops := lpLagOps steps ++ settleOp
   let ops := steps.map (·.2)
   let n := kinds.length
-  let obs := lpObs (fun _ => {}) raw
+  let rawAll := raw ++ settle.toList
+  let obs := lpObs (fun _ => {}) rawAll
   let model := dropLands lops (Lag.L.lrun kinds lops)
   let agree := model.length == obs.length &&
     (model.zip obs).all fun (m, o) => m.res == o.res && snapEq n m.snap o.snap
-  let fails := Lag.L.lcheck kinds lops (lpSynth (fun _ => {}) steps raw)
-  let br := dedup (lpBranches (LP.init kinds) ops ++ (if steps.any (·.1.isSome) then ["late-export"] else []))
+  let fails := Lag.L.lcheck kinds lops (lpSynth (fun _ => {}) steps rawAll)
+  let br := dedup (lpBranches (LP.init kinds) ops ++ (if steps.any (·.1.isSome) then ["late-export"] else []) ++
+    (match settle with | some (_, ds) => if ds.isEmpty then ["settle-quiet"] else ["settle-arrival"] | none => []))
   pure { agree := agree, spec := if fails.any then "FAIL:" ++ failTags fails else "ok",
          nontrivial := raw.any (fun (_, ds) => !ds.isEmpty),
          branches := if br.isEmpty then "-" else ",".intercalate br,
@@ -389,6 +413,7 @@ def mpLagOps : List (Option (Nat → Nat) × MP.Op) → List Lag.M.MOp
 def dropLandsM {α : Type} : List Lag.M.MOp → List α → List α
   | .land _ :: ops, _ :: xs => dropLandsM ops xs
   | .api _ :: ops, x :: xs => x :: dropLandsM ops xs
+  | .settle _ :: ops, x :: xs => x :: dropLandsM ops xs
   | _, _ => []
 
 def mpObs (prev : Nat → Cnt) : List (Res × List (Nat × Cnt)) → List MP.Obs
@@ -421,19 +446,24 @@ def mpSynth (prev : Nat → Cnt) :
   | [], raws => mpObs prev raws
   | _, [] => []
 
-def mpLine (kindsS : String) (opToks obsToks : List String) : Option Verdict := do
+def mpLine (kindsS : String) (opToks obsToksAll : List String) : Option Verdict := do
   let kinds ← parseKinds parseRKind kindsS
+  let (obsToks, settleTok) := splitSettle obsToksAll
   let raw ← obsToks.mapM parseObs
+  let settle ← match settleTok with | some t => (parseObs t).map some | none => some none
   let steps ← parseMPSteps kinds false (zipOpt opToks raw)
-  let mops := mpLagOps steps
+  let settleOp := settle.toList.map fun (_, ds) => Lag.M.MOp.settle (fun i => (deltaOf ds i).n)
+  let mops := mpLagOps steps ++ settleOp
   let ops := steps.map (·.2)
   let n := kinds.length
-  let obs := mpObs (fun _ => {}) raw
+  let rawAll := raw ++ settle.toList
+  let obs := mpObs (fun _ => {}) rawAll
   let model := dropLandsM mops (Lag.M.mrun kinds mops)
   let agree := model.length == obs.length &&
     (model.zip obs).all fun (m, o) => m.res == o.res && snapEq n m.snap o.snap
-  let fails := Lag.M.mcheck kinds mops (mpSynth (fun _ => {}) steps raw)
-  let br := dedup (mpBranches (MP.init kinds) ops ++ (if steps.any (·.1.isSome) then ["late-export"] else []))
+  let fails := Lag.M.mcheck kinds mops (mpSynth (fun _ => {}) steps rawAll)
+  let br := dedup (mpBranches (MP.init kinds) ops ++ (if steps.any (·.1.isSome) then ["late-export"] else []) ++
+    (match settle with | some (_, ds) => if ds.isEmpty then ["settle-quiet"] else ["settle-arrival"] | none => []))
   pure { agree := agree, spec := if fails.any then "FAIL:" ++ failTags fails else "ok",
          nontrivial := raw.any (fun (_, ds) => !ds.isEmpty),
          branches := if br.isEmpty then "-" else ",".intercalate br,
